@@ -1,5 +1,6 @@
 import ESRVerif.Model.Library
 import ESRVerif.Model.Subs
+import ESRVerif.Generated.Gather
 import ESRVerif.Driver.Util
 namespace ESR.Driver.Library
 open ESR ESR.Driver ESR.Library
@@ -58,7 +59,9 @@ def tokensOf (tables : List Table) : List String :=
 def fmtRound (r : RoundOut String) : String :=
   s!"{if r.expandFun then 1 else 0}{if r.checkPerm then 1 else 0}:{fmtNatList r.idx}:{fmtRows r.subs}"
 
-def runMain (gen exOrig sympS tablesS permS : String) : Option String := do
+/-- `ranks = none`: `dupMain` (the whole-list scripted sympy_simplify of the one-rank runs); `ranks = some P`: `dupMainRanks`
+with today's `make_changes` arithmetic (every rank scripts its own block, the real make_changes splices) -/
+def runMain (ranks : Option Nat) (gen exOrig sympS tablesS permS : String) : Option String := do
   let symp ← if sympS == "_" then some [] else (sympS.splitOn ",").mapM (fun e => match e.splitOn ">" with
     | [a, b] => some (a, b)
     | _ => none)
@@ -68,8 +71,11 @@ def runMain (gen exOrig sympS tablesS permS : String) : Option String := do
   let cancel := fun (mp : Nat) (c : Option (List (Entry String))) =>
     ESR.Subs.simplifyInvSubs ((toks.filter (isDupTok mp)).map Entry.map) c
   let gen := strs gen
-  match dupMain hasParam (fun s => ((symp.find? (·.1 == s)).map (·.2)).getD s) (tableOracle tables) cancel "?"
-      64 (gen.length + 3) gen (strs exOrig) perm with
+  let sympF := fun s => ((symp.find? (·.1 == s)).map (·.2)).getD s
+  match (match ranks with
+         | none => dupMain hasParam sympF (tableOracle tables) cancel "?" 64 (gen.length + 3) gen (strs exOrig) perm
+         | some P => dupMainRanks ESR.Gen.Gather.makeChanges P hasParam sympF (tableOracle tables) cancel "?" 64
+                       (gen.length + 3) gen (strs exOrig) perm) with
   | .error e => some s!"error:{e}"
   | .ok o =>
     let r := o.res
@@ -80,7 +86,21 @@ def runMain (gen exOrig sympS tablesS permS : String) : Option String := do
       s!"uniq={fmtS o.uniq}", s!"match={fmtNatList o.matchIdx}", s!"inv={fmtRows o.invSubs}"])
 
 def handle : Handler
-  | ["lib-main", gen, exOrig, symp, tables, perm] => runMain gen exOrig symp tables perm
+  | ["lib-main", gen, exOrig, symp, tables, perm] => runMain none gen exOrig symp tables perm
+  | ["lib-main-ranks", p, gen, exOrig, symp, tables, perm] => do
+      let P ← p.toNat?
+      runMain (some P) gen exOrig symp tables perm
+  | ["lib-cas-ranks", p, i, names, table] => do
+      -- one sympy_simplify call on P ranks: strings `names` (chains all None, as do_sympy passes them), one round table
+      let P ← p.toNat?
+      let i ← i.toNat?
+      let tab ← parseTable table
+      let f := strs names
+      match casCallRanks ESR.Gen.Gather.makeChanges P (tableOracle [tab] 0) false false i f (f.map fun _ => none) with
+      | none => some "raise"
+      | some (f', t') => some s!"{fmtS f'} {";".intercalate (t'.map fun c => match c with
+                                                                  | none => "N"
+                                                                  | some r => fmtRow r)}"
   | ["lib-uniq", l] =>
       let l := strs l
       let us := uniqueKeys l
